@@ -1388,6 +1388,21 @@ func runTermination(p *Prog, r *Report) {
 					okp = true
 				}
 			}
+			if _, isRet := par.(*ast.ReturnStmt); isRet && fn.Obj != nil {
+				// a constructor: every call of it must itself be the walker argument of Walk
+				sites := buildCallers(p)[fn.Obj]
+				okp = len(sites) > 0
+				for _, cs := range sites {
+					pc, isCall := p.Parent(cs.call).(*ast.CallExpr)
+					if !isCall {
+						okp = false
+						continue
+					}
+					if f := calleeOf(cs.fn.Info(), pc); f == nil || f.Name() != "Walk" {
+						okp = false
+					}
+				}
+			}
 			if okp {
 				r.Add("E14.walker-not-a-validator", fn.Name, "validationWalker{…}", p.Pos(cl), OK, "constructed only as the walker argument of walker.Walk", true)
 			} else {
